@@ -1519,7 +1519,7 @@ func boolEdge(ifi *ssa.If, isV func(ssa.Value) bool) (succWhenTrue int, ok bool)
 		}
 		break
 	}
-	if !isV(v) {
+	if !isV(v) && !isV(throughLocalCell(v)) {
 		return 0, false
 	}
 	if neg {
@@ -1544,10 +1544,38 @@ func nilEdge(ifi *ssa.If, isV func(ssa.Value) bool) (succWhenNil int, ok bool) {
 	default:
 		return 0, false
 	}
-	if !isV(other) {
+	if !isV(other) && !isV(throughLocalCell(other)) {
 		return 0, false
 	}
 	return c.succWhen(c.Op == token.EQL), true
+}
+
+// throughLocalCell: when v is a load of a local variable that does not escape, is written only by its
+// own function and holds, at the load, the value of exactly one store (`err = f(); if err != nil`
+// with err a named result kept in memory because of a defer), the stored value; v itself otherwise.
+func throughLocalCell(v ssa.Value) ssa.Value {
+	u, ok := v.(*ssa.UnOp)
+	if !ok || u.Op != token.MUL {
+		return v
+	}
+	a, ok := u.X.(*ssa.Alloc)
+	if !ok {
+		return v
+	}
+	_, stores, esc := cellStores(a)
+	if esc {
+		return v
+	}
+	for _, st := range stores {
+		if st.Parent() != u.Parent() {
+			return v
+		}
+	}
+	rs, entry := reachingStores(u)
+	if entry || len(rs) != 1 {
+		return v
+	}
+	return rs[0].Val
 }
 
 // cmpConstEdge: `ifi` compares a value satisfying isV with an integer
@@ -1558,10 +1586,10 @@ func cmpConstEdge(ifi *ssa.If, isV func(ssa.Value) bool) (op token.Token, k int6
 	if c.Y == nil {
 		return
 	}
-	if kv, isK := constInt(c.Y); isK && isV(c.X) {
+	if kv, isK := constInt(c.Y); isK && (isV(c.X) || isV(throughLocalCell(c.X))) {
 		return c.Op, kv, c.succWhen(true), true
 	}
-	if kv, isK := constInt(c.X); isK && isV(c.Y) {
+	if kv, isK := constInt(c.X); isK && (isV(c.Y) || isV(throughLocalCell(c.Y))) {
 		return flipOp(c.Op), kv, c.succWhen(true), true
 	}
 	return
